@@ -330,6 +330,15 @@ class _Norm(ast.NodeTransformer):
         self.generic_visit(n)
         if isinstance(n.func, ast.Name) and n.func.id in ('elf_assert', 'dwarf_assert') and len(n.args) > 1:
             n.args[1] = self._msg(n.args[1])
+        # N23: f(**{'k': v, ..}) with identifier keys  ->  f(k=v, ..)
+        kws = []
+        for k in n.keywords:
+            if k.arg is None and isinstance(k.value, ast.Dict) and k.value.keys and \
+                    all(isinstance(x, ast.Constant) and isinstance(x.value, str) and x.value.isidentifier() for x in k.value.keys):
+                kws += [ast.keyword(arg=x.value, value=v) for x, v in zip(k.value.keys, k.value.values)]
+            else:
+                kws.append(k)
+        n.keywords = kws
         sigs = dict(KNOWN_SIGS)
         sigs.update(self.module_sigs)
         fname = n.func.id if isinstance(n.func, ast.Name) else (n.func.attr if isinstance(n.func, ast.Attribute) and isinstance(n.func.value, ast.Name) and
@@ -347,6 +356,44 @@ class _Norm(ast.NodeTransformer):
         self.generic_visit(n)
         if isinstance(n.test, ast.Constant) and n.test.value == 1 and n.test.value is not True:
             n.test = ast.copy_location(ast.Constant(value=True), n.test)
+        # N21: while (x := e): BODY  ->  while True: x = e; if not x: break; BODY      (no else clause)
+        if isinstance(n.test, ast.NamedExpr) and not n.orelse and isinstance(n.test.target, ast.Name):
+            x = n.test.target.id
+            asg = ast.copy_location(ast.Assign(targets=[ast.Name(id=x, ctx=ast.Store())], value=n.test.value), n)
+            brk = ast.copy_location(ast.If(test=ast.UnaryOp(op=ast.Not(), operand=ast.Name(id=x, ctx=ast.Load())), body=[ast.Break()], orelse=[]), n)
+            n.body = self._block([asg, brk] + n.body)
+            n.test = ast.copy_location(ast.Constant(value=True), n.test)
+        return n
+
+    def visit_BoolOp(self, n):
+        self.generic_visit(n)
+        # N22: x == c1 or x == c2 (same x, constants)  ->  x in (c1, c2);   x != c1 and x != c2  ->  x not in (c1, c2)
+        want = ast.Eq if isinstance(n.op, ast.Or) else ast.NotEq
+        if len(n.values) >= 2 and all(isinstance(v, ast.Compare) and len(v.ops) == 1 and isinstance(v.ops[0], want) and _constlike(v.comparators[0])
+                                      and not _constlike(v.left) for v in n.values):
+            lefts = set(ast.dump(v.left) for v in n.values)
+            if len(lefts) == 1:
+                tup = ast.Tuple(elts=[v.comparators[0] for v in n.values], ctx=ast.Load())
+                op = ast.In() if want is ast.Eq else ast.NotIn()
+                return ast.copy_location(ast.Compare(left=n.values[0].left, ops=[op], comparators=[tup]), n)
+        return n
+
+    def visit_ListComp(self, n):
+        self.generic_visit(n)
+        # N16: [f(v) for v in (c1, c2, ..)] over a short constant tuple  ->  [f(c1), f(c2), ..]
+        if len(n.generators) == 1 and not n.generators[0].ifs and isinstance(n.generators[0].target, ast.Name) and \
+                isinstance(n.generators[0].iter, (ast.Tuple, ast.List)) and 1 <= len(n.generators[0].iter.elts) <= 8 and \
+                all(isinstance(e, ast.Constant) for e in n.generators[0].iter.elts):
+            import copy as _copy
+            var = n.generators[0].target.id
+
+            class S(ast.NodeTransformer):
+                def __init__(s, c):
+                    s.c = c
+
+                def visit_Name(s, x):
+                    return ast.copy_location(ast.Constant(value=s.c.value), x) if x.id == var and isinstance(x.ctx, ast.Load) else x
+            return ast.copy_location(ast.List(elts=[S(c).visit(_copy.deepcopy(n.elt)) for c in n.generators[0].iter.elts], ctx=ast.Load()), n)
         return n
 
     def visit_UnaryOp(self, n):
